@@ -526,10 +526,10 @@ func c19StackCase(t *testing.T, cs *vCases, i int, r *vRand) {
 		// legacy remoteContainerRequestCreate: a container request for another cluster
 		kind, method = "crcreate", "POST"
 		path = "/arvados/v1/container_requests"
-		dest = []string{"bbbbb", "zzzzz", "bbbbb", "zzzzz", "zzzz", "aaaaa"}[r.Intn(6)]
+		dest = []string{"bbbbb", "zzzzz", "bbbbb", "zzzzz", "bbbbb", "zzzzz", "zzzz", "aaaaa"}[r.Intn(8)]
 		extraQ = url.Values{"cluster_id": {dest}}
 		cr := `{"command":["echo","ok"],"container_image":"arvados/jobs","cwd":"/","output_path":"/out"`
-		if r.Chance(1, 5) {
+		if r.Chance(1, 6) {
 			cr += `,"runtime_token":"v2/aaaaa-gj3su-` + c19Str(r, c19Alnum, 15) + `/` + c19Str(r, c19Alnum, 50) + `"`
 		}
 		cr += "}"
@@ -572,6 +572,7 @@ func c19StackCase(t *testing.T, cs *vCases, i int, r *vRand) {
 			secrets = append([]string(nil), q.secrets...)
 		} else {
 			secrets = append([]string(nil), protect...)
+			decisive := r.Chance(2, 3) // every v2 token known with scope "all": the runtime_token decision is reached
 			for _, tok := range q.tokens {
 				s, isV2 := q.secretOf[tok]
 				if !isV2 {
@@ -581,11 +582,14 @@ func c19StackCase(t *testing.T, cs *vCases, i int, r *vRand) {
 				if strings.HasPrefix(uuid, "aaaaa") {
 					secrets = append(secrets, s)
 				}
-				if r.Chance(1, 5) {
+				if !decisive && r.Chance(1, 4) {
 					continue // unknown here
 				}
-				user := []string{"aaaaa", "aaaaa", "bbbbb", "zzzzz", "ccccc"}[r.Intn(5)]
-				scopes := []string{`["all"]`, `["all"]`, `["all"]`, `["all"]`, `["all","GET /"]`, `["GET /arvados/v1/users/current"]`, `[]`}[r.Intn(7)]
+				user := []string{"aaaaa", "aaaaa", "aaaaa", "bbbbb", "zzzzz", "ccccc"}[r.Intn(6)]
+				scopes := `["all"]`
+				if !decisive {
+					scopes = []string{`["all"]`, `["all"]`, `["all","GET /"]`, `["GET /arvados/v1/users/current"]`, `[]`}[r.Intn(5)]
+				}
 				db.rows[s] = c19DBRow{authUUID: uuid, scopes: scopes, userUUID: user + "-tpzed-" + c19Str(r, c19Alnum, 15)}
 			}
 		}
